@@ -155,12 +155,8 @@ class C04(Property):
                 failing = False
             run_spec = fspec or spec
             seeds = [rng.randrange(1 << 30) for _ in range(k)]
-            runs = []
-            for j, sd in enumerate([None] + seeds):
-                # default asyncio order first, then the PRNG schedules; a hanging workflow is not run again
-                runs += wfcheck.run_schedules(run_spec, [] if sd is None else [sd], ctx.scratch, timeout=20.0, plain_first=sd is None)
-                if runs[-1]["outcome"]["kind"] == "hang":
-                    break
+            # default asyncio order first, then the PRNG schedules; a hanging workflow is not run again
+            runs = wfcheck.run_schedules(run_spec, seeds, ctx.scratch, timeout=20.0, stop_on_hang=True)
             hangs += sum(1 for r in runs if r["outcome"]["kind"] == "hang" and not any(
                 k == KNOWN_LOOP_HANG for k, _ in oracle(run_spec, r, failing)))
             fail_node = _fail_node(run_spec)
